@@ -5,6 +5,16 @@ V = os.path.dirname(os.path.dirname(os.path.abspath(__file__)))
 props = [json.load(open(p)) for p in sorted(glob.glob(os.path.join(V, "props", "C*.json")))]
 na_path = os.path.join(V, "props", "not_applicable.json")
 na = json.load(open(na_path)) if os.path.exists(na_path) else []
+REQ = ("id", "level_text", "level_note", "technique")
+for p in props:
+    miss = [k for k in REQ if k not in p]
+    if miss:
+        print("skipping props/%s.json (not ready: missing %s)" % (p.get("id"), miss))
+props = [p for p in props if all(k in p for k in REQ)]
+ready_path = os.path.join(V, "props", "ready.json")
+ready = set(json.load(open(ready_path))) if os.path.exists(ready_path) else None
+if ready is not None:
+    props = [p for p in props if p["id"] in ready]
 claimed = {p["id"] for p in props}
 na = [x for x in na if x["property_id"] not in claimed]
 hooks_path = os.path.join(V, "props", "hooks.json")
